@@ -78,7 +78,7 @@ type Scale struct {
 
 var DefaultScale = Scale{
 	TimeToStartTx: 5, ConversionLockPeriod: 4, ControllerKickInBlock: 3,
-	CoinbaseLockupPrecompileKickInHeight: 2, CoinbaseEpochBlocks: 10,
+	CoinbaseLockupPrecompileKickInHeight: 2, CoinbaseEpochBlocks: 4,
 	BlocksPerMonth: 2, LockupByteToBlockDepth: [4]uint64{4, 8, 12, 16},
 }
 
@@ -95,6 +95,10 @@ func ApplyScale() {
 		params.BlocksPerMonth = s.BlocksPerMonth
 		for i, v := range s.LockupByteToBlockDepth {
 			params.LockupByteToBlockDepth[uint8(i)] = v
+		}
+		// trimming of small unlocked denominations: weeks -> a handful of blocks
+		for d := uint8(0); d <= types.MaxTrimDenomination; d++ {
+			types.TrimDepths[d] = uint64(3 + d)
 		}
 	})
 }
